@@ -112,7 +112,7 @@ theorem C09_switch_invocation_arguments (P : Program) (val : Node → Option Val
     (d : DagRef) (n : Node) (f : Bool) (k : Nat) (kw : Kwargs) (inv : Nat)
     (hf : Frame.node d n f (.body k kw inv) ∈ tk.frames) :
     kw = kwFrom P val n ∧ (∀ p ∈ P.g.preds n, (val p).isSome = true) ∧ inv = 0 ∧ 1 ≤ k ∧ k ≤ (P.cfg n).attemptsEff := by
-  obtain ⟨_, _, _, _, a⟩ := (safe_reach hsw hsol h).frames i tk hi (by simp) _ hf
+  obtain ⟨_, _, _, _, _, a⟩ := (safe_reach hsw hsol h).frames i tk hi (by simp) _ hf
   refine ⟨a.kw_eq, ?_, a.inv0, a.kpos, a.kle⟩
   have := a.preds
   rw [List.all_eq_true] at this
@@ -160,6 +160,26 @@ theorem C09_switch_error_is_a_node_failure (P : Program) (val : Node → Option 
   · exact absurd (by rw [h5]) hlk
   · rw [hpools] at h6; cases h6
 
+/-- **only needed nodes ever run** (laziness): in every reachable state — the launch orders supplied so far having been
+topological orders of their DAGs (`badOrd = false`; the check validates every order the real `_get_node_order` returns) —
+a node that has been started is needed by the dataflow reading: it is the output, a source of a needed ordinary node, the
+decision node of a needed switch or its **selected** case -/
+theorem C09_switch_only_needed_nodes_run (P : Program) (val : Node → Option Val) (hsw : SwP P)
+    (hsol : SolutionSw P val) (s : St) (h : Reach P s) (hord : s.badOrd = false) (n : Node) (hp : s.proc n = true) :
+    Demanded P val n := by
+  rcases (safe_reach hsw hsol h).data.lazy with hb | hl
+  · rw [hord] at hb; cases hb
+  · exact hl n hp
+
+/-- a node nobody needs — for instance a node needed only by a case that is not selected — never starts: it is not marked
+as processed, so no `on_node_start`, no body call (both happen in the section that marks it) -/
+theorem C09_switch_unneeded_node_never_runs (P : Program) (val : Node → Option Val) (hsw : SwP P)
+    (hsol : SolutionSw P val) (s : St) (h : Reach P s) (hord : s.badOrd = false) (n : Node)
+    (hn : ¬ Demanded P val n) : s.proc n = false := by
+  cases hp : s.proc n with
+  | false => rfl
+  | true => exact absurd (C09_switch_only_needed_nodes_run P val hsw hsol s h hord n hp) hn
+
 /-- two executions of a switch pipeline — whatever their schedules — never return different values -/
 theorem C09_switch_values_agree (P : Program) (val : Node → Option Val) (hsw : SwP P) (hsol : SolutionSw P val)
     (s₁ s₂ : St) (h₁ : Reach P s₁) (h₂ : Reach P s₂) (v₁ v₂ : Val) (ho₁ : s₁.outcome = some (.value v₁))
@@ -189,11 +209,11 @@ theorem reach_of_run {P : Program} : ∀ (cs : List Choice) (s s' : St), Reach P
 
 def demoSwitchRun : List Choice :=
   [.run 0 [] 0, .run 1 [0, 1, 4, 5] 0, .run 2 [] 0, .gate 0 0 1, .run 2 [] 0, .run 1 [] 0, .run 3 [] 0, .gate 1 0 1,
-   .run 3 [] 0, .run 1 [] 0, .run 4 [0, 2] 0, .run 5 [] 0, .run 6 [] 0, .gate 2 0 1, .run 6 [] 0, .run 4 [] 0,
-   .run 4 [] 0, .run 1 [] 0, .run 7 [] 0, .gate 5 0 1, .run 7 [] 0, .run 1 [] 0, .run 0 [] 0]
+   .run 3 [] 0, .run 1 [] 0, .run 4 [2] 0, .run 5 [] 0, .gate 2 0 1, .run 5 [] 0, .run 4 [] 0, .run 4 [] 0, .run 1 [] 0,
+   .run 6 [] 0, .gate 5 0 1, .run 6 [] 0, .run 1 [] 0, .run 0 [] 0]
 
 example : ∃ s, runChoicesR demoSwitch init demoSwitchRun = some s ∧ Reach demoSwitch s ∧
-    s.sw 4 = some ("l0", 2) ∧ demoSwVal 4 = demoSwVal 2 ∧
+    s.sw 4 = some ("l0", 2) ∧ demoSwVal 4 = demoSwVal 2 ∧ s.proc 3 = false ∧
     ∃ v, s.outcome = some (.value v) ∧ demoSwVal demoSwitch.g.output = some v := by
   have h : (runChoicesR demoSwitch init demoSwitchRun).isSome = true := by decide +kernel
   obtain ⟨s, hs⟩ := Option.isSome_iff_exists.mp h
@@ -211,7 +231,13 @@ example : ∃ s, runChoicesR demoSwitch init demoSwitchRun = some s ∧ Reach de
   obtain ⟨v, hv⟩ := hval
   have hdec := C09_switch_decision_is_semantic demoSwitch demoSwVal demoSwitch_swP demoSwVal_solution s hr 4 "l0" 2 hsw4
     (by decide)
-  exact ⟨s, hs, hr, hsw4, hdec.2.2, v, hv,
+  have hord : s.badOrd = false := by
+    have := fact (fun s => !s.badOrd) (by decide +kernel)
+    simpa using this
+  have h3 : s.proc 3 = false :=
+    C09_switch_unneeded_node_never_runs demoSwitch demoSwVal demoSwitch_swP demoSwVal_solution s hr hord 3
+      (fun hd => absurd (demoSwitch_demanded 3 hd) (by decide))
+  exact ⟨s, hs, hr, hsw4, hdec.2.2, h3, v, hv,
     C09_switch_returned_value demoSwitch demoSwVal demoSwitch_swP demoSwVal_solution s hr v hv⟩
 
 /-- run a list of choices, collecting the observation log -/
